@@ -118,6 +118,18 @@ func c19Pool(r *Run, t *tape.Tape) []c19Item {
 			continue
 		}
 		pool = append(pool, c19Item{w.B, w.Dec})
+		if t.Bool(1, 3, "c19.pool.stripped") {
+			// the same message after a relay stripped unprotected buckets
+			// (an empty map on the wire): the commonest bucket there is
+			b := w.B
+			for k := 0; k < 3; k++ {
+				if out, _, ok := StructFault(t, b, "unprot-clear"); ok {
+					b = out
+				}
+			}
+			pool = append(pool, c19Item{b, w.Dec})
+			r.Fired("unprot-clear")
+		}
 		objs := Objects(w)
 		for j := 0; j < 3 && len(objs) > 0; j++ {
 			o := objs[t.Choose(len(objs), "c19.pool.obj")]
